@@ -679,6 +679,73 @@ func TestVerifC05(t *testing.T) {
 	}
 }
 
+// --- round_robin with an ejected member, pick-level interleavings: the counting claim speaks
+// of eligible backends. With a backend of the pool out, a request may need several picks; the
+// order in which the picks of concurrent requests take their turns at the strategy is all that
+// distinguishes two schedules, so the exploration switches threads at picks only (a decorator
+// around the strategy yields there) and is not bounded in preemptions: every order of the picks
+// is run. Two pickers with one request each and one picker with many: enough for every pick of
+// the first two to land on the ejected backend while the third takes the turns in between.
+type c05pParams struct {
+	Singles, Long int
+}
+
+type yieldingStrategy struct {
+	Strategy
+	s *vrt.Sched
+}
+
+func (y *yieldingStrategy) NextBackend(r *http.Request) *Backend {
+	y.s.Branch(true)
+	y.s.Yield("pick")
+	y.s.Branch(false)
+	return y.Strategy.NextBackend(r)
+}
+
+func c05pScenario(p c05pParams) vh.SScenario {
+	return vh.SScenario{Name: fmt.Sprintf("rr-one-member-out-%dx1+1x%d", p.Singles, p.Long), KeyPrefix: "C05/round_robin/conc", Bound: 1 << 20, Params: p, ShardSubtrees: true, Horizon: 100000, Body: func(x *vh.Exec) {
+		s := x.S
+		k := newKit(s, kitOpts{Strategy: "round_robin", N: 3, PassiveThr: 1, Window: 1000})
+		k.lb.MarkBackendUnhealthy(k.backendByName("b1"), 1000*time.Second)
+		k.lb.strategy = &yieldingStrategy{Strategy: k.lb.strategy, s: s}
+		counts := map[string]int{}
+		total := p.Singles + p.Long
+		x.Check = func(v vrt.Verdict) (string, string, string, bool) {
+			out := fmt.Sprint(counts)
+			if v.Kind != vrt.OK {
+				return out, "", "", false
+			}
+			if counts["b1"] != 0 || counts["none"] != 0 {
+				return out, "C05/round_robin/concurrent-pick-not-eligible", fmt.Sprintf("pool b0 b1 b2 with b1 out: %d concurrent requests were dispatched %v", total, counts), true
+			}
+			if total%2 == 0 && counts["b0"] != counts["b2"] {
+				return out, "C05/round_robin/concurrent-totals-uneven/one-member-out", fmt.Sprintf("pool b0 b1 b2 with b1 out for the whole run, %d pickers with one request each and one with %d: the %d requests went %v, expected exactly %d for each of the two eligible backends", p.Singles, p.Long, total, counts, total/2), true
+			}
+			return out, "", "", true
+		}
+		var ths []*vrt.Thread
+		spawn := func(name string, n int) {
+			ths = append(ths, s.Spawn(name, func() {
+				s.Branch(false) // threads change at picks only (and when one ends)
+				for j := 0; j < n; j++ {
+					if b := k.lb.findHealthyBackend(httptest.NewRequest("GET", "http://helios.test/", nil)); b != nil {
+						counts[b.Name]++
+					} else {
+						counts["none"]++
+					}
+				}
+				s.Branch(true) // who goes on when this one has ended is a choice, too
+			}))
+		}
+		for t := 0; t < p.Singles; t++ {
+			spawn(fmt.Sprintf("single%d", t), 1)
+		}
+		spawn("long", p.Long)
+		s.Branch(true)
+		s.Join(ths...)
+	}}
+}
+
 func TestVerifC05S(t *testing.T) {
 	r := vres.Open("C05", racePart("S"))
 	defer func() {
@@ -693,6 +760,15 @@ func TestVerifC05S(t *testing.T) {
 		if err := vres.LoadReplay(&rp); err != nil {
 			t.Fatal(err)
 		}
+		if strings.HasPrefix(rp.Scenario, "rr-one-member-out") {
+			var pp c05pParams
+			rp.Params = &pp
+			if err := vres.LoadReplay(&rp); err != nil {
+				t.Fatal(err)
+			}
+			vh.ReplayS(c05pScenario(pp), rp.Choices)
+			return
+		}
 		vh.ReplayS(c05sScenario(p, 0), rp.Choices)
 		return
 	}
@@ -700,8 +776,11 @@ func TestVerifC05S(t *testing.T) {
 	if vres.Thorough() {
 		scs = append(scs, c05sScenario(c05sParams{3, 3, 2}, 3), c05sScenario(c05sParams{2, 4, 1}, 3), c05sScenario(c05sParams{4, 2, 2}, 3), c05sScenario(c05sParams{2, 2, 2}, 4))
 	}
+	if !vrt.RaceBuild {
+		scs = append(scs, c05pScenario(c05pParams{1, 5}), c05pScenario(c05pParams{2, 10}))
+	}
 	for i, sc := range scs {
-		if vh.MyShard(i) {
+		if vh.MyShard(i) || sc.ShardSubtrees {
 			vh.RunS(r, "TestVerifC05S", sc)
 		}
 	}
